@@ -3,6 +3,7 @@ CONSTANTS
   File <- FilesB
   FDataSeq <- DataB
   FOther <- OtherB
+  FSplit <- SplitB
   Caps <- GenCaps
 INVARIANT EmitFull
 CHECK_DEADLOCK FALSE
